@@ -100,6 +100,7 @@ class Transaction:
         # This is a critical check in production systems
         table_schema = self._resolve_table_schema()
         for data_file in files:
+            self._require_canonical_path(data_file.file_path)
             if not self.file_manager.validate_file_exists(data_file.file_path):
                 raise FileNotFoundError(f"Data file does not exist: {data_file.file_path}")
             # The read path (scan, scan_batches, ...) reads every data file as
@@ -119,6 +120,27 @@ class Transaction:
         self._operations.append({"type": "append_files", "files": files})
 
         return self
+
+    @staticmethod
+    def _require_canonical_path(file_path: str) -> None:
+        """Reject a data file path that is not in canonical table-relative form.
+
+        Manifests store the path verbatim and garbage collection matches stored
+        paths against storage listings as strings. On a filesystem "data//f",
+        "data/./f" and "data/x/../f" all open the file "data/f", so such a path
+        was accepted, committed and readable - and the next collection deleted
+        the live file, because the listed key "data/f" matched no manifest
+        entry. Only the canonical spelling (optionally with leading slashes)
+        is accepted.
+        """
+        import posixpath
+
+        rel = file_path.lstrip("/")
+        if not rel or posixpath.normpath(rel) != rel or rel == ".." or rel.startswith("../"):
+            raise ValueError(
+                f"Data file path {file_path!r} is not a canonical table-relative path "
+                f"(empty, or contains '//', './' or '../' components)"
+            )
 
     def _validate_file_schema(self, data_file: DataFile, table_schema: Schema) -> None:
         """Reject a pre-built data file whose stored schema diverges from the table's.
